@@ -295,6 +295,59 @@ def _beta_ok(fn, p, lam):
     return bool(callee_ids)
 
 
+def _never_none(e):
+    """syntactically certain: a literal that is not None, a lambda, or Class.method of a class of the package"""
+    if isinstance(e, ast.Constant):
+        return e.value is not None
+    if isinstance(e, (ast.Lambda, ast.List, ast.Tuple, ast.Dict, ast.Set, ast.ListComp, ast.JoinedStr)):
+        return True
+    if isinstance(e, ast.Attribute) and isinstance(e.value, ast.Name):
+        for tree in PKG.values():
+            for st in tree.body:
+                if isinstance(st, ast.ClassDef) and st.name == e.value.id:
+                    if any(isinstance(m, ast.FunctionDef) and m.name == e.attr for m in st.body):
+                        return True
+    return False
+
+
+def _fold_none_tests(body):
+    """after a parameter was replaced by its argument: `None is None`, `<lambda> is None`, `Class.method is not None` ...
+    are decided, and the conditional expressions / statements testing them reduced to the taken branch"""
+    def decide(t):
+        if isinstance(t, ast.Compare) and len(t.ops) == 1 and isinstance(t.ops[0], (ast.Is, ast.IsNot)):
+            a, b = t.left, t.comparators[0]
+            for x, y in ((a, b), (b, a)):
+                if isinstance(y, ast.Constant) and y.value is None:
+                    if isinstance(x, ast.Constant) and x.value is None:
+                        return isinstance(t.ops[0], ast.Is)
+                    if _never_none(x):
+                        return isinstance(t.ops[0], ast.IsNot)
+        if isinstance(t, ast.UnaryOp) and isinstance(t.op, ast.Not):
+            d = decide(t.operand)
+            return None if d is None else not d
+        return None
+
+    class F(ast.NodeTransformer):
+        def visit_IfExp(self, n):
+            self.generic_visit(n)
+            d = decide(n.test)
+            if d is None:
+                return n
+            return n.body if d else n.orelse
+
+        def visit_If(self, n):
+            self.generic_visit(n)
+            d = decide(n.test)
+            if d is None:
+                return n
+            return (n.body if d else n.orelse) or [ast.copy_location(ast.Pass(), n)]
+    out = []
+    for s_ in body:
+        r = F().visit(s_)
+        out.extend(r if isinstance(r, list) else [r])
+    return out
+
+
 PKG = {}        # module name -> raw tree of every module of the package (set by the loader): helpers defined in a sibling module
 
 
@@ -420,6 +473,7 @@ class Inliner:
         prelude, mapping, subst, lams = b
         body = [_Rename(mapping, subst, lams).visit(copy.deepcopy(s)) for s in fn.body
                 if not (isinstance(s, ast.Expr) and isinstance(s.value, ast.Constant))]
+        body = _fold_none_tests(body)
         has_ret = any(isinstance(x, ast.Return) for x in _all_stmts(body))
         if ctxkind == "return":
             if not _ends_all(body):
